@@ -150,6 +150,103 @@ fn enumerated() -> Vec<Scenario> {
     out
 }
 
+// ---------------------------------------------------------------------------------------------
+// A stream that always has its next item ready, towards a subscriber that takes a while per item:
+// the other clients must still be served while it is open.
+
+#[derive(Debug, Clone, serde::Serialize, serde::Deserialize)]
+pub struct EndlessCase {
+    /// Pending polls before each write to the subscriber completes (1..=3)
+    pub throttle: u8,
+    /// the other clients (1..=2), each: (poll index at which its calls are delivered 0..=9, number of calls 1..=3, delivered in two pieces)
+    pub others: Vec<(u8, u8, bool)>,
+    /// calls pipelined by the subscriber in front of its Sub (0..=2)
+    pub before_sub: u8,
+}
+
+pub fn check_endless(case: &EndlessCase, stats: &mut Stats) -> CaseResult {
+    use std::{cell::RefCell, future::Future, pin::Pin, rc::Rc};
+    use vcommon::{exec::poll_once, sim::SimListener};
+    const POLLS: usize = 80;
+    stats.class("lane:endless-stream");
+    stats.nontrivial_hash(hash_of(&(case.throttle, &case.others, case.before_sub)));
+    let listener = SimListener::new();
+    let state = Rc::new(RefCell::new(SvcState::default()));
+    let server = zlink_core::Server::new(listener.clone(), SimService(state.clone()));
+    let mut fut: Pin<Box<dyn Future<Output = zlink_core::Result<()>>>> = Box::pin(server.run());
+    let call = |kind, id| FrameSpec::Call { kind, id, oneway: false, more: kind == CallKind::Sub, pad: (id % 4) as u16, flags_first: id % 2 == 1 };
+    // the subscriber
+    let sub_id = case.before_sub as u32;
+    let ha = listener.connect();
+    {
+        let mut w = ha.write.borrow_mut();
+        for _ in 0..20_000 {
+            w.pending_script.push_back(case.throttle.clamp(1, 3) as u32);
+        }
+    }
+    state.borrow_mut().stream(0, sub_id).borrow_mut().endless = Some((0, sub_id));
+    let mut a_bytes = Vec::new();
+    for id in 0..sub_id {
+        a_bytes.extend(call(CallKind::Echo, id).render(0));
+        a_bytes.push(0);
+    }
+    a_bytes.extend(call(CallKind::Sub, sub_id).render(0));
+    a_bytes.push(0);
+    ha.push_data(&a_bytes);
+    // the others
+    let mut others = Vec::new();
+    for (k, (at, n, split)) in case.others.iter().enumerate() {
+        let c = k + 1;
+        let h = listener.connect();
+        let mut bytes = Vec::new();
+        for id in 0..(*n).clamp(1, 3) as u32 {
+            bytes.extend(call(if id % 2 == 0 { CallKind::Echo } else { CallKind::Fail }, id).render(c));
+            bytes.push(0);
+        }
+        others.push((h, bytes, (*at % 10) as usize, *split, (*n).clamp(1, 3) as usize));
+    }
+    for p in 0..POLLS {
+        for (h, bytes, at, split, _) in &others {
+            if p == *at {
+                let cut = if *split { bytes.len() / 2 } else { bytes.len() };
+                h.push_data(&bytes[..cut]);
+            }
+            if p == *at + 2 && *split {
+                h.push_data(&bytes[bytes.len() / 2..]);
+            }
+        }
+        if let std::task::Poll::Ready(r) = poll_once(fut.as_mut()) {
+            return Err(Fail::new("server-stopped", format!("Server::run() returned {r:?}")));
+        }
+    }
+    let items = ha.written().split(|&b| b == 0).filter(|f| !f.is_empty()).count();
+    if items < 3 {
+        return Err(Fail::new("harness", format!("the subscriber received only {items} frames in {POLLS} polls")));
+    }
+    for (k, (h, _, at, _, n)) in others.iter().enumerate() {
+        let got: Vec<serde_json::Value> = h.written().split(|&b| b == 0).filter(|f| !f.is_empty()).filter_map(|f| serde_json::from_slice(f).ok()).collect();
+        let ok = got.len() == *n && got.iter().enumerate().all(|(id, v)| v["parameters"]["c"] == json!(k + 1) && v["parameters"]["id"] == json!(id));
+        if !ok {
+            return Err(Fail::new(
+                "client-not-served-while-a-stream-is-open",
+                format!(
+                    "connection 0 holds a stream that always has its next item ready (its transport needs {} polls per write; it received {items} frames); connection {} delivered {n} call(s) at poll {at} of {POLLS} and received {} repl(y/ies): {}",
+                    case.throttle,
+                    k + 1,
+                    got.len(),
+                    got.iter().map(|v| v.to_string()).collect::<Vec<_>>().join(" | ")
+                ),
+            ));
+        }
+    }
+    Ok(())
+}
+
+fn endless_strategy() -> impl proptest::strategy::Strategy<Value = EndlessCase> {
+    use proptest::prelude::*;
+    (1u8..=3, prop::collection::vec((0u8..10, 1u8..=3, any::<bool>()), 1..=2), 0u8..=2).prop_map(|(throttle, others, before_sub)| EndlessCase { throttle, others, before_sub })
+}
+
 pub fn run(ctx: &Ctx) -> i32 {
     let (shards, cases) = ctx.tier.pick((16, 8000), (64, 20_000));
     let (mut stats, mut viol) = run_shards(ctx, "random", shards, cases, || scenario_strategy(FEATURES), check_scenario);
@@ -158,6 +255,9 @@ pub fn run(ctx: &Ctx) -> i32 {
     let (s3, v3) = run_shards(ctx, "random-with-faults", shards, cases / 2, || scenario_strategy(wf), check_scenario);
     stats.merge(s3);
     viol.extend(v3);
+    let (s4, v4) = run_shards(ctx, "endless-stream", 4, ctx.tier.pick(400, 4000), endless_strategy, check_endless);
+    stats.merge(s4);
+    viol.extend(v4);
     let en = enumerated();
     let (s2, v2) = par_enumerate(ctx, "stream-interleavings", en.len() as u64, |i, stats| {
         let sc = &en[i as usize];
@@ -185,6 +285,11 @@ pub fn run(ctx: &Ctx) -> i32 {
 pub fn replay(_lane: &str, case: serde_json::Value) -> CaseResult {
     if _lane == "fuzz" {
         return crate::fuzzrun::replay(&case);
+    }
+    if _lane == "endless-stream" {
+        let c: EndlessCase = serde_json::from_value(case).map_err(|e| Fail::new("bad-replay", e.to_string()))?;
+        println!("{c:?}");
+        return check_endless(&c, &mut Stats::default());
     }
     let sc: Scenario = serde_json::from_value(case).map_err(|e| Fail::new("bad-replay", e.to_string()))?;
     println!("{}", serde_json::to_string_pretty(&sample_of(&sc)).unwrap());
